@@ -97,8 +97,11 @@ def run(ck):
         gens, gfail = [], []
         for g in range(ng):
             reply = dc.enc_reply([("gen%d_%d.txt" % (g, k), "content %d" % k) for k in range(rng.choice([0, 1, 2]))])
-            how = rng.choice(["reply", "reply", "reply", "reply", "exit1", "missing", "stderr", "sigkill", "sigsegv", "exit255"])
-            gens.append(("gen-%s-%d" % (how, g), rng.choice([None, "k=v"]), reply if how == "reply" else None))
+            how = rng.choice(["reply", "reply", "reply", "reply", "exit1", "missing", "stderr", "sigkill", "sigsegv", "exit255", "cut", "cut"])
+            if how == "cut":
+                # a reply that ends before it is complete (right after the list of files, inside a file, after one byte): the generator failed
+                reply = rng.choice([reply[:-1], reply[:-1], reply[:max(1, len(reply) // 2)], reply[:1]])
+            gens.append(("gen-%s-%d" % ("reply" if how == "cut" else how, g), rng.choice([None, "k=v"]), reply if how in ("reply", "cut") else None))
             gfail.append(how)
         if kind in ("clean", "error", "warn") and rng.random() < 0.25:
             # the same source listed twice: a DuplicateFile warning from file resolution, before anything is parsed
@@ -112,11 +115,11 @@ def run(ck):
     o = dc.run_all(lines)
     ck.stream("driver", description="the real slicec binary in a scratch directory: programs that are clean / warnings only (deprecated use, broken link, misplaced tag) / one error of each phase "
               "(missing file, non-.slice source, directory as source, preprocessor, syntax, file without module, unknown attribute, unresolved type or base, cycles through plain, optional, sequence, dictionary and enumerator fields, alias and inheritance loops, redefinition, rule violations of several validators, attribute arguments) in any one of 1-3 files "
-              "(sources and references) x 0..3 generators (reply-writing, or failing: exit 1, exit 255, killed by a signal, missing executable, stderr output) x suppressions written in the files themselves ([[allow(All)]] and others) x the same source listed twice (DuplicateFile warning) x --dry-run x -A lists x output directory. Compared with the driver model: which generators were started, which files appeared, the exit status, "
+              "(sources and references) x 0..3 generators (reply-writing, or failing: a reply that ends early, exit 1, exit 255, killed by a signal, missing executable, stderr output) x suppressions written in the files themselves ([[allow(All)]] and others) x the same source listed twice (DuplicateFile warning) x --dry-run x -A lists x output directory. Compared with the driver model: which generators were started, which files appeared, the exit status, "
               "the number of error diagnostics on stderr (JSON).")
     mlines = []
     for md in metas:
-        beh = {"reply": lambda r: "run:1:0:0:%s" % r.hex(), "exit1": lambda r: "run:1:0:1:-", "exit255": lambda r: "run:1:0:1:-", "sigkill": lambda r: "run:1:0:1:-", "sigsegv": lambda r: "run:1:0:1:-", "missing": lambda r: "missing", "stderr": lambda r: "run:1:1:0:0000"}
+        beh = {"reply": lambda r: "run:1:0:0:%s" % r.hex(), "cut": lambda r: "run:1:0:0:%s" % (r.hex() or "-"), "exit1": lambda r: "run:1:0:1:-", "exit255": lambda r: "run:1:0:1:-", "sigkill": lambda r: "run:1:0:1:-", "sigsegv": lambda r: "run:1:0:1:-", "missing": lambda r: "missing", "stderr": lambda r: "run:1:1:0:0000"}
         mlines.append("main %s %d G %s FS" % ("E" if md["has_err"] else ("L" if md["kind"] == "warn" or md["dup"] else "-"), 1 if md["dry"] else 0,
                                               " ".join(beh[h](r) for (_, _, r), h in zip(md["gens"], md["gfail"]))))
     m = core.run_model("main", mlines)
@@ -145,8 +148,8 @@ def run(ck):
         # files: exactly the sources plus, when generation runs, every file of every reply (below the output directory)
         gen_files = {}
         if runs:
-            for g, _, reply in md["gens"]:
-                if reply is None:
+            for (g, _, reply), how_ in zip(md["gens"], md["gfail"]):
+                if reply is None or how_ == "cut":      # files are written only from a reply that was decoded whole
                     continue
                 k = 0
                 while ("gen%s_%d.txt" % (g.split("-")[-1], k)).encode() in reply:
